@@ -33,21 +33,21 @@ func (s sortKind) String() string {
 }
 
 type term struct {
-	op   string // "const", "var", or an SMT operator
-	sort sortKind
-	args []*term
-	i    int64  // const Int
-	b    bool   // const Bool
-	s    string // const String (raw bytes) or var name
-	str  string // cached rendering
-	lenHint *term // for str.substr: its length under the engine's bounds discipline
+	op      string // "const", "var", or an SMT operator
+	sort    sortKind
+	args    []*term
+	i       int64  // const Int
+	b       bool   // const Bool
+	s       string // const String (raw bytes) or var name
+	str     string // cached rendering
+	lenHint *term  // for str.substr: its length under the engine's bounds discipline
 }
 
 func (t *term) isConst() bool { return t.op == "const" }
 
-func mkInt(i int64) *term   { return &term{op: "const", sort: sInt, i: i} }
-func mkBool(b bool) *term   { return &term{op: "const", sort: sBool, b: b} }
-func mkStr(s string) *term  { return &term{op: "const", sort: sStr, s: s} }
+func mkInt(i int64) *term  { return &term{op: "const", sort: sInt, i: i} }
+func mkBool(b bool) *term  { return &term{op: "const", sort: sBool, b: b} }
+func mkStr(s string) *term { return &term{op: "const", sort: sStr, s: s} }
 func mkVar(name string, s sortKind) *term {
 	return &term{op: "var", sort: s, s: name}
 }
